@@ -568,4 +568,9 @@ def import_cause(c):
                     return "aliased-spec-with-line-comment"
     if "=>" in c.src and re.search(r'=> \w+[ \t]*(//|/\*)', c.src):
         return "aliased-spec-with-line-comment"
+    a = getattr(c, "a", None)
+    if a:
+        for run in pn_runs(a["runs"]):
+            if len(set(run)) < len(run):
+                return "duplicate-spec:" + c.fail[0][0]
     return c.fail[0][0]
